@@ -235,7 +235,11 @@ func TestC13Hermetic(t *testing.T) {
 		nargs := rapid.IntRange(0, 3).Draw(rt, "nargs")
 		var args []string
 		for i := 0; i < nargs; i++ {
-			switch rapid.IntRange(0, 3).Draw(rt, "argkind") {
+			switch rapid.IntRange(0, 5).Draw(rt, "argkind") {
+			case 4:
+				args = append(args, `(dict "k1" "a" "k2" "b" "k3" "c" "k4" "d" "k5" "e" "k6" "f")`)
+			case 5:
+				args = append(args, ".config")
 			case 0:
 				args = append(args, fmt.Sprintf("%q", rapid.SampledFrom([]string{"abc", "a,b", "HOME", "PATH", "1.2.3", "x y", "", "[a-z]+", "https://h/p?q=1"}).Draw(rt, "s")))
 			case 1:
@@ -261,7 +265,7 @@ func TestC13Hermetic(t *testing.T) {
 						err = fmt.Errorf("panic: %v", r)
 					}
 				}()
-				err = p.Execute(&sb, map[string]any{"config": map[string]any{"label": "alpha"}})
+				err = p.Execute(&sb, map[string]any{"config": map[string]any{"label": "alpha", "l2": "b", "l3": "c", "l4": "d", "l5": "e", "l6": "f"}})
 			}()
 			if err != nil {
 				return "", "error"
@@ -272,6 +276,10 @@ func TestC13Hermetic(t *testing.T) {
 		os.Setenv("HOME", "/somewhere/else")
 		os.Setenv("VERIF_ENV_PROBE", "1")
 		o2, e2 := run()
+		for i := 0; i < 4 && o1 == o2 && e1 == e2; i++ {
+			// map-order dependence shows up as a difference between repeated evaluations
+			o2, e2 = run()
+		}
 		os.Unsetenv("VERIF_ENV_PROBE")
 		c := map[string]any{"part": "hermetic", "template": text}
 		var err error
